@@ -14,6 +14,13 @@ inductive PyDefault
   | empty | none | str (s : Tok) | int (i : Int) | bool (b : Bool) | list (xs : List Tok)
   deriving DecidableEq, Repr
 
+/-- One parameter of the task body after the context argument, in declaration order.  `arg_opts` and
+    `fill_implicit_positionals` look at the name and the default only, never at `Parameter.kind`: a keyword-only
+    parameter (`*, x` / `*, x=1`) is a `Param` like any other, and - unlike plain parameters - may lack a default
+    *after* a defaulted one; nothing in the model or the theorems assumes that parameters without default come
+    first.  (`*args`, `**kwargs` and positional-only parameters are treated by the code in exactly the same way -
+    which is the known findings C09-var-positional-param / -var-keyword-param / -positional-only-param: their
+    values cannot be delivered by keyword.) -/
 structure Param where
   name : Tok
   default : PyDefault
